@@ -63,7 +63,11 @@ def make_case(rc):
         if rc.get('only') is not None:
             other = base['AB'[1 - rc['only']] + '1']
             l, r = (l, other) if rc['only'] == 0 else (other, r)
-        out = I.eval_formula('=A1%sB1' % XL[op], base, addr='D4', overrides=ov)
+        pre = None
+        if rc.get('pre'):
+            tw = lambda v: {True: 1, False: 0}.get(v, v) if isinstance(v, bool) else (bool(v) if isinstance(v, int) and v in (0, 1) else (float(v) if isinstance(v, int) else (int(v) if isinstance(v, float) and v == int(v) and abs(v) < 2 ** 53 else 5)))
+            pre = [I.Cell(0, o.column, o.row, tw(o.value) if not isinstance(o.value, (str, dt.date)) and type(o.value).__name__ != 'EmptyCell' else 5) for o in ov]
+        out = I.eval_formula('=A1%sB1' % XL[op], base, addr='D4', overrides=ov, pre_overrides=pre)
     elif k == 'literal':
         out = I.eval_formula('=%s%s%s' % (rc['ll'], XL[op], rc['rl']), {}, addr='D4')
     else:
@@ -124,7 +128,7 @@ def gen_recipes(rng, tier):
         for b in others:
             for l, r in ((a, b), (b, a)):
                 for op, _ in (OPS if tier != 'quick' else rng.sample(OPS, 3)):
-                    out.append({'kind': 'override', 'op': op, 'l': l, 'r': r})
+                    out.append({'kind': 'override', 'op': op, 'l': l, 'r': r, 'pre': rng.random() < 0.5})
     lits = [(p, literal_of(C.jdec(p))) for p in P]
     lits = [(p, s) for p, s in lits if s is not None]
     lp = list(itertools.product(lits, lits))
